@@ -2,6 +2,7 @@ package gabikeys
 
 import (
 	"os"
+	"strconv"
 	"path/filepath"
 	"syscall"
 
@@ -199,6 +200,12 @@ func vpxFlawedKeyXML(nbits, flaw int) string {
 		bases = `<Bases num="2"><Base_0>3</Base_0><Base_1>-9</Base_1></Bases>`
 	case 5:
 		z = "<Z>-5</Z>"
+	case 6: // no flaw: twelve bases 3, 4, ..., 14
+		bases = `<Bases num="12">`
+		for k := 0; k < 12; k++ {
+			bases += "<Base_" + strconv.Itoa(k) + ">" + strconv.Itoa(3+k) + "</Base_" + strconv.Itoa(k) + ">"
+		}
+		bases += "</Bases>"
 	}
 	return XMLHeader + `<IssuerPublicKey xmlns="http://www.zurich.ibm.com/security/idemix"><Counter>0</Counter><ExpiryDate>1700000000</ExpiryDate><Elements>` +
 		"<n>" + v.String() + "</n>" + z + s + bases + `</Elements><Features><Epoch length="432000"></Epoch></Features></IssuerPublicKey>`
@@ -234,8 +241,19 @@ func vpC18_O5() {
 		}
 		return
 	}
-	flaw := vpChoose("flaw", 6)
+	flaw := vpChoose("flaw", 7)
 	pk, err := NewPublicKeyFromBytes([]byte(vpxFlawedKeyXML(1024, flaw)))
+	if flaw == 6 {
+		vpAssert("a public key document with twelve bases is read", err == nil && pk != nil && len(pk.R) == 12)
+		if err == nil && len(pk.R) == 12 {
+			inOrder := true
+			for k := 0; k < 12; k++ {
+				inOrder = inOrder && pk.R[k].Cmp(big.NewInt(int64(3+k))) == 0
+			}
+			vpAssert("the bases of a key document are read in the order in which they were written", inOrder)
+		}
+		return
+	}
 	if flaw == 0 {
 		vpAssert("a complete public key document is read", err == nil && pk != nil && pk.Z != nil && pk.S != nil && len(pk.R) == 2)
 	} else {
